@@ -1,4 +1,87 @@
-import SfxModel.ArithSpec
+import SfxProofs.Widen
+import SfxProofs.FallbackMul
+import SfxProofs.WideDiv
+import SfxProofs.Forms
+/-
+  C01 — Products and quotients are the exactly rounded true results at every width.
+
+  `mulOverflow` / `divOverflow` are the models of `MulDivOverflow::{mul_overflow, div_overflow}` (`arith.rs`): the
+  widening implementation (8–64 bit) and the four-limb product / Knuth long division fallback (128 bit).  The helper
+  theorems hold for BOTH implementations at every even width, so the property does not depend on which widths the
+  source assigns to which implementation.
+-/
 namespace Sfx.C01
-theorem placeholder : True := trivial
+
+theorem valid_facts {L : Layout} (hv : L.valid) : 2 ≤ L.n ∧ L.n % 2 = 0 ∧ L.n < 2 ^ 31 ∧ L.f ≤ L.n := by
+  obtain ⟨h, hf⟩ := hv
+  refine ⟨?_, ?_, ?_, hf⟩ <;> rcases h with h | h | h | h | h <;> rw [h] <;> decide
+
+/-- the shared multiply helper returns the exact product rounded toward −∞, reduced mod 2^n, with the exact flag -/
+theorem mulOverflow_spec (L : Layout) (hv : L.valid) (a b : Int) (ha : inRange L a) (hb : inRange L b) :
+    mulOverflow L.signed L.n L.f a b = .ok (ovfI L.signed L.n (mulSpec L.f a b)) false := by
+  obtain ⟨h2, he, h31, hf⟩ := valid_facts hv
+  unfold mulOverflow
+  split
+  · exact mulOverflowFallback_spec L.signed L.n L.f h2 he h31 hf a b ha hb
+  · exact mulOverflowWiden_spec L.signed L.n L.f (by omega) h31 hf a b ha hb
+
+/-- the shared divide helper returns the exact quotient rounded toward zero, reduced mod 2^n, with the exact flag -/
+theorem divOverflow_spec (L : Layout) (hv : L.valid) (a b : Int) (ha : inRange L a) (hb : inRange L b) (hb0 : b ≠ 0) :
+    divOverflow L.signed L.n L.f a b = .ok (ovfI L.signed L.n (divSpec L.f a b)) false := by
+  obtain ⟨h2, he, h31, hf⟩ := valid_facts hv
+  unfold divOverflow
+  split
+  · exact divOverflowFallback_spec L.signed L.n L.f h2 he h31 hf a b ha hb hb0
+  · exact divOverflowWiden_spec L.signed L.n L.f (by omega) h31 hf a b ha hb hb0
+
+theorem divOverflow_zero (L : Layout) (hv : L.valid) (a : Int) (ha : inRange L a) :
+    divOverflow L.signed L.n L.f a 0 = .panic := by
+  obtain ⟨h2, _, _, hf⟩ := valid_facts hv
+  unfold divOverflow
+  split
+  · exact divOverflowFallback_zero L.signed L.n L.f h2 hf a ha
+  · exact divOverflowWiden_zero L.signed L.n L.f (by omega) hf a ha
+
+/-- the double-limb long division used by the 128-bit quotient, at every limb width of the crate -/
+theorem wide_div_spec (n : Nat) (hn : n = 8 ∨ n = 16 ∨ n = 32 ∨ n = 64 ∨ n = 128) (d n1 n0 : Int)
+    (hd : inI false n d) (hd0 : d ≠ 0) (h1 : inI false n n1) (h0 : inI false n n0) :
+    WideDiv.divRemFromU n d n1 n0 =
+      .ok ((((n1 * 2 ^ n + n0) / d) / 2 ^ n, ((n1 * 2 ^ n + n0) / d) % 2 ^ n), (n1 * 2 ^ n + n0) % d) false := by
+  apply divRemFromU_spec n _ _ d n1 n0 hd hd0 h1 h0 <;> rcases hn with h | h | h | h | h <;> rw [h] <;> decide
+
+/-- Full-strength statement of C01 over the model. -/
+def C01_statement : Prop :=
+  ∀ L : Layout, L.valid → ∀ a b : Int, inRange L a → inRange L b →
+    (inRange L (mulSpec L.f a b) →
+      L.checkedMul a b = .ok (some (mulSpec L.f a b)) false ∧
+      L.mulOp a b = .ok (mulSpec L.f a b) false ∧
+      L.overflowingMul a b = .ok (mulSpec L.f a b, false) false) ∧
+    (b ≠ 0 → inRange L (divSpec L.f a b) →
+      L.checkedDiv a b = .ok (some (divSpec L.f a b)) false ∧
+      L.divOp a b = .ok (divSpec L.f a b) false ∧
+      L.overflowingDiv a b = .ok (divSpec L.f a b, false) false)
+
+theorem holds : C01_statement := by
+  intro L hv a b ha hb
+  obtain ⟨h2, _, _, hf⟩ := valid_facts hv
+  have hn : 0 < L.n := by omega
+  refine ⟨fun hE => ?_, fun hb0 hE => ?_⟩
+  · obtain ⟨ff, hop⟩ := mul_forms L hn a b ha hb (mulOverflow_spec L hv a b ha hb)
+    have hw : L.wrap (mulSpec L.f a b) = mulSpec L.f a b := wrapI_of_in hn hE
+    refine ⟨?_, ?_, ?_⟩
+    · rw [ff.checked]; simp [Layout.chk, chkI, inRange] at hE ⊢; simp [hE]
+    · rw [hop, hw]; simp [hE]
+    · rw [ff.overflowing]; simp [Layout.ovf, ovfI]; exact ⟨hw, hE⟩
+  · obtain ⟨ff, hop⟩ := div_forms L hn hf a b ha hb hb0 (divOverflow_spec L hv a b ha hb hb0)
+    have hw : L.wrap (divSpec L.f a b) = divSpec L.f a b := wrapI_of_in hn hE
+    refine ⟨?_, ?_, ?_⟩
+    · rw [ff.checked]; simp [Layout.chk, chkI, inRange] at hE ⊢; simp [hE]
+    · rw [hop, hw]; simp [hE]
+    · rw [ff.overflowing]; simp [Layout.ovf, ovfI]; exact ⟨hw, hE⟩
+
+/-- non-vacuity: a 128-bit signed layout with a negative operand and a representable product and quotient -/
+example : (⟨true, 128, 64⟩ : Layout).valid ∧ inRange ⟨true, 128, 64⟩ (-(2 ^ 127)) ∧ inRange ⟨true, 128, 64⟩ (2 ^ 63) ∧
+    inRange ⟨true, 128, 64⟩ (mulSpec 64 (-(2 ^ 127)) (2 ^ 63)) ∧ inRange ⟨true, 128, 64⟩ (divSpec 64 (-(2 ^ 127)) (2 ^ 65)) := by
+  decide
+
 end Sfx.C01
